@@ -1,6 +1,6 @@
 (* C06/Proofs.v -- soundness of Operator.derivative for every expression tree. *)
 From Coq Require Import Reals Lra Lia List Bool ZArith.
-From Verif Require Import Base.Num Base.Vec Base.VecR C06.Syntax Gen.UfuncDeriv C06.Model C06.Calc C06.Lin C06.LinMap C06.Leaves C06.Blocks C06.PwNorm.
+From Verif Require Import Base.Num Base.Vec Base.VecR C06.Syntax Gen.UfuncDeriv C06.Model C06.Calc C06.Lin C06.LinMap C06.Leaves C06.Blocks C06.PwNorm C06.Cplx.
 Import ListNotations.
 Local Open Scope R_scope.
 
@@ -16,9 +16,10 @@ Proof.
   destruct a, b; cbn; try discriminate; auto.
   - intros H; apply Nat.eqb_eq in H; subst; reflexivity.
   - intros H; apply nats_eqb_eq in H; subst; reflexivity.
+  - intros H; apply Nat.eqb_eq in H; subst; reflexivity.
 Qed.
 Lemma space_eqb_refl s : space_eqb s s = true.
-Proof. destruct s; cbn; [reflexivity|apply Nat.eqb_refl|apply nats_eqb_refl]. Qed.
+Proof. destruct s; cbn; [reflexivity|apply Nat.eqb_refl|apply nats_eqb_refl|apply Nat.eqb_refl]. Qed.
 Lemma is_SV_dim s : is_SV s = true -> s = SV (sdim s).
 Proof. destruct s; cbn; try discriminate; reflexivity. Qed.
 
@@ -68,6 +69,7 @@ Definition lregular (l : leafR) (x : Rvec) : Prop :=
   | LPwNorm n p w =>
       if (p =? 1)%Z then forall i, (i < length x)%nat -> nth i x 0 <> 0   (* |.| has a kink at 0 *)
       else forall j, (j < n)%nat -> 0 < nth j (pwnormsq n w x) 0            (* point-wise norm > 0 *)
+  | LCMod s => forall j, (j < sdim (real_space s))%nat -> 0 < nth j (cmod2 s x) 0    (* |z| > 0 *)
   | _ => True
   end.
 Fixpoint regular (e : oexprR) (x : Rvec) : Prop :=
@@ -158,7 +160,7 @@ Lemma llin_blin l : llin l = true -> lwt P l = true ->
 Proof.
   intros Hl Hw. destruct l; cbn [llin lwt ldom lran leval sdim] in *; try discriminate Hl.
   - apply blin_scale.
-  - apply Nat.eqb_eq in Hw. apply blin_mulv. exact Hw.
+  - apply andb_prop in Hw as [Hw _]. apply Nat.eqb_eq in Hw. apply blin_mulv. exact Hw.
   - apply blin_mvec. apply forallb_len. exact Hw.
   - apply blin_dot. reflexivity.
   - apply blin_zero.
@@ -172,6 +174,13 @@ Proof.
   - apply Nat.eqb_eq in Hw. cbn [PR adom aran ader]. apply Habs. exact Hw.
   - apply andb_prop in Hw as [Hw _]. apply Nat.eqb_eq in Hw. rewrite list_sum_repeat.
     apply pwinner_blin. exact Hw.
+  - apply re_blin. destruct (is_field s); [discriminate Hw|reflexivity].
+  - apply im_blin. destruct (is_field s); [discriminate Hw|reflexivity].
+  - apply andb_prop in Hw as [Hf Hx]. apply Nat.eqb_eq in Hx.
+    assert (Hf' : is_field s = false) by (destruct (is_field s); [discriminate Hf|reflexivity]).
+    destruct sq.
+    + apply (cmodD_sq_blin s x Hf' Hx).
+    + apply (cmodD_blin s x _ Hf' Hx). cbn [PR rt]. rewrite map_length. apply cmod2_len; assumption.
 Qed.
 
 Lemma leval_len l y : lwt P l = true -> length y = sdim (ldom P l) ->
@@ -179,7 +188,7 @@ Lemma leval_len l y : lwt P l = true -> length y = sdim (ldom P l) ->
 Proof.
   intros Hw Hy. destruct l; cbn [lwt ldom lran leval sdim] in *; try reflexivity.
   - rewrite vscal_len; exact Hy.
-  - apply Nat.eqb_eq in Hw. unfold vmul; apply vmap2_len; assumption.
+  - apply andb_prop in Hw as [Hw _]. apply Nat.eqb_eq in Hw. unfold vmul; apply vmap2_len; assumption.
   - apply mvec_len.
   - apply vconst_len.
   - apply Nat.eqb_eq in Hw; exact Hw.
@@ -196,6 +205,16 @@ Proof.
   - rewrite list_sum_repeat in Hy. apply andb_prop in Hw as [Hw _]. apply Nat.eqb_eq in Hw.
     unfold pwinner. apply pwsum_len; auto.
     intros a b Ha Hb. unfold vmul; apply vmap2_len; assumption.
+  - apply re_len; [destruct (is_field s); [discriminate Hw|reflexivity]|exact Hy].
+  - apply im_len; [destruct (is_field s); [discriminate Hw|reflexivity]|exact Hy].
+  - rewrite map_length. apply cmod2_len; [destruct (is_field s); [discriminate Hw|reflexivity]|exact Hy].
+  - apply cmod2_len; [destruct (is_field s); [discriminate Hw|reflexivity]|exact Hy].
+  - apply andb_prop in Hw as [Hf Hx]. apply Nat.eqb_eq in Hx.
+    assert (Hf' : is_field s = false) by (destruct (is_field s); [discriminate Hf|reflexivity]).
+    destruct sq.
+    + rewrite vscal_len. apply redot_len; assumption.
+    + unfold vdiv. apply vmap2_len; [apply redot_len; assumption|].
+      rewrite map_length. apply cmod2_len; assumption.
 Qed.
 
 (* the bundle proved of every derivative object *)
@@ -236,7 +255,7 @@ Proof.
       * apply zpow_deriv_nonpos; [exact Hp|]. apply Hreg; [exact Hp|lia].
       * apply zpow_deriv_pos. lia.
     + apply (blin_comp _ (sdim s)); [apply blin_mulv; exact Hlen|apply blin_scale].
-    + rewrite map_length. apply Nat.eqb_eq. exact Hx.
+    + rewrite map_length, Hw, andb_true_r. apply Nat.eqb_eq. exact Hx.
   - (* LUf *)
     cbn [lderiv lderiv_ok ldom lran lwt leval lregular sdim] in *.
     destruct (ufunc_deriv f) as [e|] eqn:He.
@@ -246,7 +265,7 @@ Proof.
       * intros g d Hc. apply (curve_map _ (usem P f) (ueval P e)); [exact Hc|].
         intros i Hi. apply (ufunc_deriv_table_sound af ad adm arn rv f e He). apply Hreg. lia.
       * apply blin_mulv; exact Hlen.
-      * apply Nat.eqb_eq. exact Hlen.
+      * rewrite andb_true_r. apply Nat.eqb_eq. exact Hlen.
     + apply Hself; [exact Hok|reflexivity].
   - (* LNorm *)
     cbn [lderiv lderiv_ok ldom lran lwt leval lregular sdim PR rt] in *.
@@ -296,6 +315,20 @@ Proof.
       * intros g d Hc. apply (pwnorm2_curve af ad adm arn rv n w g x d Hc Hreg).
       * apply pwinner_blin. exact Hlen.
       * rewrite Hlen, Nat.eqb_refl, Hk. reflexivity.
+  - (* LCMod *)
+    cbn [lderiv ldom lran lwt leval lregular] in *.
+    assert (Hf : is_field s = false) by (destruct (is_field s); [discriminate Hw|reflexivity]).
+    unfold sound. cbn [eval leval is_lin llin wt lwt dom ran ldom lran PR rt]. ssplit; auto.
+    + intros g d Hc. apply (cmod_curve s g x d Hf Hc Hreg).
+    + apply (cmodD_blin s x _ Hf Hx). rewrite map_length. apply cmod2_len; assumption.
+    + rewrite Hf, Hx, Nat.eqb_refl. reflexivity.
+  - (* LCMod2 *)
+    cbn [lderiv ldom lran lwt leval lregular] in *.
+    assert (Hf : is_field s = false) by (destruct (is_field s); [discriminate Hw|reflexivity]).
+    unfold sound. cbn [eval leval is_lin llin wt lwt dom ran ldom lran PR rt of_Z Num_R]. ssplit; auto.
+    + intros g d Hc. apply (cmod2_curve s g x d Hf Hc).
+    + apply (cmodD_sq_blin s x Hf Hx).
+    + rewrite Hf, Hx, Nat.eqb_refl. reflexivity.
 Qed.
 
 (* ---------- expressions ---------- *)
@@ -456,13 +489,16 @@ Proof.
     unfold vadd. apply vmap2_len; [apply IHa; auto|exact Hr].
   - cbn [wt] in Hw. apply andb_prop in Hw as [Hw Hr]. apply andb_prop in Hw as [Ha Hb]. apply space_eqb_eq in Hr.
     apply IHa; auto. rewrite <- Hr. apply IHb; auto.
-  - cbn [wt] in Hw. apply andb_prop in Hw as [Hw Hr]. apply andb_prop in Hw as [Hw Hd]. apply andb_prop in Hw as [Ha Hb].
+  - cbn [wt] in Hw. apply andb_prop in Hw as [Hw _].
+    apply andb_prop in Hw as [Hw Hr]. apply andb_prop in Hw as [Hw Hd]. apply andb_prop in Hw as [Ha Hb].
     apply space_eqb_eq in Hr, Hd. unfold vmul. apply vmap2_len; [apply IHa; auto|rewrite Hr; apply IHb; auto; rewrite <- Hd; auto].
   - cbn [wt] in Hw. rewrite vscal_len. apply IHa; auto.
   - cbn [wt] in Hw. apply IHa; auto. rewrite vscal_len; auto.
-  - cbn [wt] in Hw. apply andb_prop in Hw as [Hw Hr]. apply andb_prop in Hw as [Ha _]. apply Nat.eqb_eq in Hr.
+  - cbn [wt] in Hw. apply andb_prop in Hw as [Hw _].
+    apply andb_prop in Hw as [Hw Hr]. apply andb_prop in Hw as [Ha _]. apply Nat.eqb_eq in Hr.
     unfold vmul. apply vmap2_len; [apply IHa; auto|exact Hr].
-  - cbn [wt] in Hw. apply andb_prop in Hw as [Hw Hr]. apply andb_prop in Hw as [Ha _]. apply Nat.eqb_eq in Hr.
+  - cbn [wt] in Hw. apply andb_prop in Hw as [Hw _].
+    apply andb_prop in Hw as [Hw Hr]. apply andb_prop in Hw as [Ha _]. apply Nat.eqb_eq in Hr.
     apply IHa; auto. unfold vmul. apply vmap2_len; [exact Hy|exact Hr].
   - rewrite vscal_len. reflexivity.
   - (* Broadcast *)
@@ -496,9 +532,11 @@ Proof.
     apply (blin_comp _ (sdim (ran P b)) _ (eval P a) (eval P b)); [apply IHb; auto|rewrite Hr; apply IHa; auto].
   - cbn [wt] in Hw. apply (blin_comp _ (sdim (ran P a)) _ (vscal s) (eval P a)); [apply IHa; auto|apply blin_scale].
   - cbn [wt] in Hw. apply (blin_comp _ (sdim (dom P a)) _ (eval P a) (vscal s)); [apply blin_scale|apply IHa; auto].
-  - cbn [wt] in Hw. apply andb_prop in Hw as [Hw Hr]. apply andb_prop in Hw as [Ha _]. apply Nat.eqb_eq in Hr.
+  - cbn [wt] in Hw. apply andb_prop in Hw as [Hw _].
+    apply andb_prop in Hw as [Hw Hr]. apply andb_prop in Hw as [Ha _]. apply Nat.eqb_eq in Hr.
     apply (blin_comp _ (sdim (ran P a)) _ (fun y => vmul y v) (eval P a)); [apply IHa; auto|apply blin_mulv; exact Hr].
-  - cbn [wt] in Hw. apply andb_prop in Hw as [Hw Hr]. apply andb_prop in Hw as [Ha _]. apply Nat.eqb_eq in Hr.
+  - cbn [wt] in Hw. apply andb_prop in Hw as [Hw _].
+    apply andb_prop in Hw as [Hw Hr]. apply andb_prop in Hw as [Ha _]. apply Nat.eqb_eq in Hr.
     apply (blin_comp _ (sdim (dom P a)) _ (eval P a) (fun y => vmul y v)); [apply blin_mulv; exact Hr|apply IHa; auto].
   - cbn [wt] in Hw. apply andb_prop in Hw as [Ha Hr]. apply space_eqb_eq in Hr.
     apply (blin_comp _ 1%nat _ (fun y => vscal (hd 0 y) v) (eval P a)); [rewrite Hr in IHa; apply IHa; auto|apply blin_outer; reflexivity].
@@ -541,18 +579,19 @@ Qed.
 
 (* y * D for a value y of the common range *)
 Lemma mk_lmul_sound r y D n :
+  is_complex r = false ->
   blin n (sdim r) (eval P D) -> is_lin D = true -> wt P D = true -> ran P D = r -> length y = sdim r ->
   (forall d, length d = n -> eval P (mk_lmul r y D) d = vmul (eval P D d) y) /\
   is_lin (mk_lmul r y D) = true /\ wt P (mk_lmul r y D) = true /\
   dom P (mk_lmul r y D) = dom P D /\ ran P (mk_lmul r y D) = r.
 Proof.
-  intros Hb Hl Hw Hr Hy.
+  intros Hcx Hb Hl Hw Hr Hy.
   assert (Hvec : is_field r = false ->
     (forall d, length d = n -> eval P (OLVec D y) d = vmul (eval P D d) y) /\
     is_lin (OLVec D y) = true /\ wt P (OLVec D y) = true /\ dom P (OLVec D y) = dom P D /\ ran P (OLVec D y) = r).
   { intros Hf. cbn [eval is_lin wt dom ran]. repeat split; auto.
-    rewrite Hw, Hr, Hf, Hy. cbn. apply Nat.eqb_refl. }
-  destruct r as [|k|ns]; cbn [mk_lmul]; [|apply Hvec; reflexivity|apply Hvec; reflexivity].
+    rewrite Hw, Hr, Hf, Hy, Hcx, Nat.eqb_refl. reflexivity. }
+  destruct r as [|k|ns|k]; cbn [mk_lmul]; [|apply Hvec; reflexivity|apply Hvec; reflexivity|discriminate Hcx].
   cbn [sdim] in *.
   rewrite mk_lscal_lin, mk_lscal_wt, mk_lscal_dom, mk_lscal_ran. repeat split; auto.
   intros d Hd. rewrite mk_lscal_eval.
@@ -788,6 +827,7 @@ Proof.
   - (* OPProd *)
     cbn [derivative deriv_ok regular wt dom ran eval] in *.
     apply andb_prop in Hok as [Oa Ob]. destruct Hreg as [Ra Rb].
+    apply andb_prop in Hw as [Hw Hcx]. apply negb_true_iff in Hcx.
     apply andb_prop in Hw as [Hw Hr]. apply andb_prop in Hw as [Hw Hd]. apply andb_prop in Hw as [Wa Wb].
     apply space_eqb_eq in Hr, Hd.
     destruct (IHa x Wa Hx Oa Ra) as (A1 & A2 & A3 & A4 & A5 & A6).
@@ -796,9 +836,9 @@ Proof.
     rewrite <- Hd, <- Hr in B1, B2. rewrite <- Hr in B6. rewrite <- Hd in B5.
     assert (Hya : length (eval P a x) = sdim (ran P a)) by (apply eval_len; auto).
     assert (Hyb : length (eval P b x) = sdim (ran P a)) by (rewrite Hr; apply eval_len; auto).
-    destruct (mk_lmul_sound (ran P a) (eval P b x) (derivative P a x) _ A2 A3 A4 A6 Hyb)
+    destruct (mk_lmul_sound (ran P a) (eval P b x) (derivative P a x) _ Hcx A2 A3 A4 A6 Hyb)
       as (L1 & L2 & L3 & L4 & L5).
-    destruct (mk_lmul_sound (ran P a) (eval P a x) (derivative P b x) _ B2 B3 B4 B6 Hya)
+    destruct (mk_lmul_sound (ran P a) (eval P a x) (derivative P b x) _ Hcx B2 B3 B4 B6 Hya)
       as (M1 & M2 & M3 & M4 & M5).
     unfold sound. cbn [eval is_lin wt dom ran]. ssplit.
     + apply (hdiff_ext_len _ _ _ _
@@ -856,17 +896,19 @@ Proof.
     destruct (is_lin a) eqn:La.
     { apply lin_sound; auto. }
     cbn [orb wt dom ran eval] in *.
+    apply andb_prop in Hw as [Hw Hcx].
     apply andb_prop in Hw as [Hw Hr]. apply andb_prop in Hw as [Wa Hf]. apply Nat.eqb_eq in Hr.
     destruct (IHa x Wa Hx Hok Hreg) as (A1 & A2 & A3 & A4 & A5 & A6).
     unfold sound. cbn [eval is_lin wt dom ran]. ssplit; auto.
     + apply hdiff_mul_const; [exact A1|exact Hr].
     + apply (blin_comp _ (sdim (ran P a)) _ (fun y => vmul y v) (eval P (derivative P a x))); [exact A2|apply blin_mulv; exact Hr].
-    + rewrite A4, A6, Hf, Hr. cbn. apply Nat.eqb_refl.
+    + rewrite A4, A6, Hf, Hr, Hcx, Nat.eqb_refl. reflexivity.
   - (* ORVec *)
     cbn [derivative deriv_ok regular] in *.
     destruct (is_lin a) eqn:La.
     { apply lin_sound; auto. }
     cbn [orb wt dom ran eval] in *.
+    apply andb_prop in Hw as [Hw Hcx].
     apply andb_prop in Hw as [Hw Hv]. apply andb_prop in Hw as [Wa Hf]. apply Nat.eqb_eq in Hv.
     assert (Hvx : length (vmul v x) = sdim (dom P a)).
     { unfold vmul. apply vmap2_len; [exact Hv|exact Hx]. }
@@ -876,7 +918,7 @@ Proof.
       * apply (blin_hdiff _ _ _ _ (blin_mulv _ v Hv) Hx).
       * cbn beta. rewrite (vmul_comm x v). exact A1.
     + apply (blin_comp _ (sdim (dom P a)) _ (eval P (derivative P a (vmul v x))) (fun y => vmul y v)); [apply blin_mulv; exact Hv|exact A2].
-    + rewrite A4, A5, Hf, Hv. cbn. apply Nat.eqb_refl.
+    + rewrite A4, A5, Hf, Hv, Hcx, Nat.eqb_refl. reflexivity.
   - (* OFLVec *)
     cbn [derivative deriv_ok regular] in *.
     destruct (is_lin a) eqn:La.
